@@ -200,11 +200,6 @@ static void runA(long job, const std::string& progStr, const std::string& schedS
                 std::printf("V find %d -\n", m);
             else
                 std::printf("V find %d %lld\n", m, back(*f));
-            auto lb = bm.lower_bound(realIndex(m));
-            if (lb == bm.end())
-                std::printf("V lower %d -\n", m);
-            else
-                std::printf("V lower %d %lld\n", m, back(*lb));
         }
     }
     std::printf("E\n");
